@@ -283,3 +283,34 @@ def card_order(a, b):
 
 
 LEMMAS["def.card"] = "card(S) = number of fixed variables: S ⊑ T implies card(S) >= card(T), with equality only if S = T (finite dom)"
+
+
+# pop form of list membership, and membership of first components in a list of (int, optional list) pairs (DFS stacks)
+StackEntry = TTuple(TInt, TOpt(ListInt))
+StackT = TList(StackEntry)
+OnStack = z3.Function("OnStack", StackT.sort(), I, B)     # OnStack(stk, x) := exists k. 0 <= k < len and fst(stk[k]) = x
+stkidx = z3.Function("stkidx", StackT.sort(), I, I)
+_sk, _sa, _se = z3.Const("st!m", StackT.sort()), z3.Const("sa!m", z3.ArraySort(I, StackEntry.sort())), z3.Const("se!m", StackEntry.sort())
+AX_STACK = [
+    z3.ForAll([_sk, _xi], z3.Implies(OnStack(_sk, _xi), z3.And(0 <= stkidx(_sk, _xi), stkidx(_sk, _xi) < StackT.len(_sk),
+                                                                StackEntry.get(StackT.at(_sk)[stkidx(_sk, _xi)], 0) == _xi)),
+              patterns=[OnStack(_sk, _xi)]),
+    z3.ForAll([_sk, _ki], z3.Implies(z3.And(0 <= _ki, _ki < StackT.len(_sk)), OnStack(_sk, StackEntry.get(StackT.at(_sk)[_ki], 0))),
+              patterns=[StackT.at(_sk)[_ki]]),
+    z3.ForAll([_ni, _sa, _se, _xi], z3.Implies(_ni >= 0, OnStack(StackT.mk(_ni + 1, z3.Store(_sa, _ni, _se)), _xi) ==
+                                               z3.Or(OnStack(StackT.mk(_ni, _sa), _xi), StackEntry.get(_se, 0) == _xi)),
+              patterns=[OnStack(StackT.mk(_ni + 1, z3.Store(_sa, _ni, _se)), _xi)]),
+    z3.ForAll([_sk, _xi], z3.Implies(StackT.len(_sk) <= 0, z3.Not(OnStack(_sk, _xi))), patterns=[OnStack(_sk, _xi)]),
+    # frame: entries below the top are unaffected by writing at / above position n-1 ... expressed through the pop form above
+]
+LEMMAS["def.OnStack"] = "membership of a node among the first components of the DFS stack: definitional axioms (elimination, introduction, pop form, empty)"
+
+
+def pop_facts(ty, old, new):
+    """facts about list.pop() for the membership predicates (instances of their definitions; no global axiom, to avoid matching loops)"""
+    xq = z3.Int("x!pop")
+    if ty == ListInt:
+        return [z3.ForAll([xq], MemI(old, xq) == z3.Or(MemI(new, xq), ListInt.at(old)[ListInt.len(old) - 1] == xq))]
+    if ty == StackT:
+        return [z3.ForAll([xq], OnStack(old, xq) == z3.Or(OnStack(new, xq), StackEntry.get(StackT.at(old)[StackT.len(old) - 1], 0) == xq))]
+    return []
